@@ -25,6 +25,28 @@ thread_local! {
     static REPLAY_PATH: Cell<*const libc::c_char> = const { Cell::new(std::ptr::null()) };
 }
 
+/// releases a thread's arena, staging buffer and replay path when the thread ends
+struct Cleanup {
+    base: *mut libc::c_void,
+    total: usize,
+    buf: *mut u8,
+    path: *mut libc::c_char,
+}
+
+impl Drop for Cleanup {
+    fn drop(&mut self) {
+        unsafe {
+            libc::munmap(self.base, self.total);
+            drop(Box::from_raw(std::ptr::slice_from_raw_parts_mut(self.buf, MAX_LEN)));
+            drop(CString::from_raw(self.path));
+        }
+    }
+}
+
+thread_local! {
+    static CLEANUP: std::cell::RefCell<Option<Cleanup>> = const { std::cell::RefCell::new(None) };
+}
+
 static HANDLER_INSTALLED: AtomicBool = AtomicBool::new(false);
 static THREAD_COUNTER: AtomicUsize = AtomicUsize::new(0);
 
@@ -99,15 +121,18 @@ fn arena() -> Arena {
         assert!(rc == 0, "mprotect failed");
         let a = Arena { data };
         ARENA.with(|c| c.set(Some(a)));
-        // staging buffer and replay path for the handler (leaked on purpose)
+        // staging buffer and replay path for the handler (owned by the thread's Cleanup)
         let buf: &'static mut [u8] = Box::leak(vec![0u8; MAX_LEN].into_boxed_slice());
-        STAGE_BUF.with(|c| c.set(buf.as_mut_ptr()));
+        let buf_ptr = buf.as_mut_ptr();
+        STAGE_BUF.with(|c| c.set(buf_ptr));
         let root = std::env::var("VERIF_ROOT").unwrap_or_else(|_| "/verif".into());
         let dir = format!("{root}/replays/C06");
         let _ = std::fs::create_dir_all(&dir);
         let n = THREAD_COUNTER.fetch_add(1, Ordering::SeqCst);
         let p = CString::new(format!("{dir}/segv-{}-{n}.json", std::process::id())).unwrap();
-        REPLAY_PATH.with(|c| c.set(Box::leak(p.into_boxed_c_str()).as_ptr()));
+        let path_ptr = p.into_raw();
+        REPLAY_PATH.with(|c| c.set(path_ptr as *const libc::c_char));
+        CLEANUP.with(|c| *c.borrow_mut() = Some(Cleanup { base, total, buf: buf_ptr, path: path_ptr }));
         a
     }
 }
